@@ -415,6 +415,26 @@ def run_case(case: dict) -> Result:
                 bad = check_unique(root, False, 'after unclaim_interleaving_comments')
                 if bad:
                     return _done(res.bad('unique:' + bad[0], bad[1]), classes)
+                if un:
+                    # a selection that cannot be satisfied as a whole (the released comments plus one this list cannot take: another owner's
+                    # comment, or one that is not in the document): if it is refused, no comment may come out of it flagged as owned (round 8, seed C14-h)
+                    others = [t for t in O.store_tokens(root.token_store) if isinstance(t, BlockComment) and not any(t is u for u in un)]
+                    for foreign in ([others[0]] if others else []) + [BlockComment.from_value('not in the document')]:
+                        mid = omap(root)
+                        try:
+                            w.claim_interleaving_comments([*un, foreign])
+                        except Exception:  # noqa: BLE001
+                            classes.add('stage:refused-mixed-selection')
+                            bad = check_unique(root, False, 'after a refused claim_interleaving_comments(released comments + one it cannot take)')
+                            if bad:
+                                return _done(res.bad('unique:refused-claim:' + bad[0], bad[1]), classes)
+                            if omap(root) != mid:
+                                return _done(res.bad(f'refused-claim-changed-attribution:{type(m).__name__}.{p.name}', f'a refused claim_interleaving_comments() changed the '
+                                                     f'attribution: {_mdiff(mid, omap(root))} in {text!r}'), classes)
+                        else:
+                            break   # accepted (the other comment was claimable too): the attribution moved on, the round trip below does not apply
+                    if omap(root) != mid:
+                        continue
                 try:
                     w.claim_interleaving_comments(un)
                 except Exception as e:  # noqa: BLE001
